@@ -224,6 +224,18 @@ def make_builtins():
     def _iter(it, x):
         return list(it.iterate(x))
 
+    @reg("memoryview")
+    def _memoryview(it, x):
+        # read-only uses only: a view of a bytes-like object is modelled by an immutable copy (slices of it are views of
+        # the same bytes, which is all unpack_from / indexing / len / bytes() observe)
+        if isinstance(x, (bytes, bytearray)):
+            x = BytesVal.of(x)
+        if isinstance(x, BytesVal):
+            return BytesVal(list(x.items), False)
+        if isinstance(x, ABytes):
+            return x
+        raise Unsupported("memoryview of " + type(x).__name__)
+
     @reg("property")
     def _property(it, f):
         return Property(f)
